@@ -10,7 +10,7 @@ func VerifC04_Terminator() {
 	mode := vInt("mode", 0, 2)
 	um := vInt("um", 0, 2)
 	ro := vBool("ro")
-	ctx := vInt("ctx", 0, 10)
+	ctx := vInt("ctx", 0, 13)
 	t1, t2 := vString("t1"), vString("t2")
 	x := vString("x")
 
@@ -23,6 +23,9 @@ func VerifC04_Terminator() {
 	flag := opt.Bool("flag", false)
 	str := opt.String("str", "d")
 	sopt := opt.StringOptional("sopt", "dd")
+	iopt := opt.IntOptional("iopt", 5)
+	fopt := opt.Float64Optional("fopt", 2.5)
+	flist := opt.Float64Slice("flist", 1, 3)
 	list := opt.StringSlice("list", 1, 3)
 	ilist := opt.IntSlice("ilist", 1, 3)
 	m := opt.StringMap("map", 1, 3)
@@ -59,6 +62,12 @@ func VerifC04_Terminator() {
 		pre = []string{"--ilist", "7"}
 	case 10:
 		pre = []string{"--map=k=" + x}
+	case 11:
+		pre = []string{"--iopt"}
+	case 12:
+		pre = []string{"--fopt"}
+	case 13:
+		pre = []string{"--flist", "1.5"}
 	}
 	vPhase("run")
 	args := cat(pre, []string{"--", t1, t2})
@@ -83,6 +92,15 @@ func VerifC04_Terminator() {
 	}
 	vAssert("sopt-default", *sopt == "dd")
 	vAssert("sopt-called", opt.Called("sopt") == (ctx == 4))
+	vAssert("iopt-default", *iopt == 5)
+	vAssert("iopt-called", opt.Called("iopt") == (ctx == 11))
+	vAssert("fopt-default", *fopt == 2.5)
+	vAssert("fopt-called", opt.Called("fopt") == (ctx == 12))
+	if ctx == 13 {
+		vAssert("flist", len(*flist) == 1 && (*flist)[0] == 1.5)
+	} else {
+		vAssert("flist", len(*flist) == 0)
+	}
 	if ctx == 5 || ctx == 6 {
 		vAssert("list", eqStrs(*list, []string{x}))
 	} else {
